@@ -39,7 +39,7 @@ PROP = dict(
     theorems=['Fit.C12.C12_f64_round_err', 'Fit.C12.C12_scale_roundtrip_rounded', 'Fit.C12.C12_profile_pairs_in_range',
               'Fit.C12.C12_helpers', 'Fit.C12.C12_helpers_int64', 'Fit.C12.C12_value_route', 'Fit.C12.C12_validator', 'Fit.C12.C12_csv',
               'Fit.C12.C12_slice', 'Fit.C12.C12_unit_identity', 'Fit.C12.C12_datetime', 'Fit.C12.C12_semicircles',
-              'Fit.C12.C12_typed_full_fails', 'Fit.C12.C12_typed_pow2_partial', 'Fit.C12.C12_F07_witness_fixed'],
+              'Fit.C12.C12_typed', 'Fit.C12.C12_typed_invalid', 'Fit.C12.C12_typed_witness_fixed', 'Fit.C12.C12_F07_witness_fixed'],
     families=[dict(name='f64'), dict(name='scaleoffset', spec=True, shrink=False), dict(name='timeangle', spec=True, shrink=False)],
     trusted_base=STD_TRUST + [
         "binary64: FitModel/F64.lean (exact rational operation + one round-to-nearest-even, gradual underflow, overflow, signed zeros; NaN canonical) is tied to Go's float64 on this machine by the family f64 (add/sub/mul/div/compare/math.Round/int<->float conversions on bit patterns: structured + random operands); amd64 does not fuse multiply-add",
